@@ -175,14 +175,22 @@ def check_relabel(F, st, P3):
     P3.floor('merge call sites in the stage', len(merges), 2)
     relabel_q = set()
     relabel_cur = set()
+    partial = []
     for blk in body.blocks:
         if blk.cleanup:
             continue
         if blk.term.k == 'call' and blk.term.callee.path.endswith('Iterator::for_each') and 'DltMessage' in (blk.term.args[0].ty or ''):
-            # closure argument must write exactly {lifecycle}
+            # closure argument must write exactly {lifecycle}; the traversal must be the *whole* queue:
+            # iter_mut() of the queue itself with no element-dropping adaptor (skip, take, filter, step_by ...) in between
             cl = comparators.closure_path_of(F, body, blk.term.args[1])
+            src = st.E.operand(blk.term.args[0])
+            whole = isinstance(src, tuple) and src[0] == 'call' and (src[1].endswith('VecDeque::<T, A>::iter_mut') or src[1].endswith('IntoIterator::into_iter')) and \
+                'VecDeque<adlt::dlt::DltMessage>' in (blk.term.args[0].ty or '') or (isinstance(src, tuple) and src[0] == 'call' and src[1].endswith('VecDeque::<T, A>::iter_mut'))
             if cl is not None and eff.may_write(cl.path) == {'lifecycle'}:
-                relabel_q.add(blk.i)
+                if whole:
+                    relabel_q.add(blk.i)
+                else:
+                    partial.append((blk, show(src)))
         for s in blk.stmts:
             if s.k == 'assign' and effects.field_path(s.place) == 'lifecycle' and s.place.l in st.recv_locals:
                 relabel_cur.add(blk.i)
@@ -205,6 +213,10 @@ def check_relabel(F, st, P3):
             for f in s[1]:
                 if f[0] in ('need_q', 'need_cur'):
                     bad.setdefault((f[1], f[0]), (sb, s))
+    for (blk, src) in partial:
+        P3.violation(('relabel-partial-traversal', body.path, re.sub(r'[^A-Za-z:]+', '_', src.split('(')[0])[:40]),
+                     'the relabelling after a merge at %s traverses only part of the queue (%s): queued messages of the merged lifecycle outside that part keep an id that no longer denotes a lifecycle' % (body.loc(blk.term.sp), src[:80]),
+                     where=body.loc(blk.term.sp))
     ms = sorted(merges)
     for m in ms:
         for need, what in (('need_q', 'queued messages'), ('need_cur', 'the current message')):
